@@ -333,7 +333,7 @@ def _on_alarm(sig, frame):
                         except OSError:
                             pass
                         setattr(p, attr, None)
-        signal.setitimer(signal.ITIMER_REAL, 20)
+        signal.setitimer(signal.ITIMER_REAL, st.get("grace", 20))
         return
     raise HarnessTimeout()
 
@@ -430,7 +430,7 @@ def run_cli(argv, cwd, *, vk=None, git=None, clock=None, env=None, tracer=None, 
             old_alarm = None
             try:
                 if timeout is not None:
-                    _alarm_state.update(res=res, vk=vk, stage=0)
+                    _alarm_state.update(res=res, vk=vk, stage=0, grace=min(20, max(2, timeout)))
                     old_alarm = signal.signal(signal.SIGALRM, _on_alarm)
                     signal.setitimer(signal.ITIMER_REAL, timeout)
                 if tracer is not None:
